@@ -72,7 +72,7 @@ Example C08_example :
   let U := Univ [[]; [0]; [0]; [1; 2]; [3]; [4]]
                 [[(0,0)]; [(0,0); (1,1)]; [(0,2)]; [(0,3); (1,1)]; [(0,3); (1,4)]; [(0,5); (1,4)]] in
   let F := seed U [0; 1] in
-  let c := Cfg true false false true in
+  let c := Cfg true false true false in
   wf_univ U = true /\ closedb U (vis_of F empty_repo) = true /\
   exists T1 T2, fetch U c F empty_repo false 4 = (FOk, 3, T1) /\
                 commit U c F T1 5 = (FOk, 1, T2) /\
